@@ -581,7 +581,7 @@ bool TMCG_PublicKey::verify
 		unsigned char *w = new unsigned char[mdsize];
 		unsigned char *r = new unsigned char[TMCG_PRAB_K0];
 		unsigned char *gamma = new unsigned char[gsize];
-		unsigned char *yy = new unsigned char[(2*mnsize)+1024];
+		unsigned char *yy = new unsigned char[(2*mnsize)+1024](); // zeroed: mpz_export writes nothing for 0
 		size_t cnt = 1;
 		mpz_export(yy, &cnt, -1, mnsize, 1, 0, foo);
 		memcpy(w, yy, mdsize);
